@@ -1294,7 +1294,7 @@ def _op_wire_big(ctx, W, st):
          "ins": [{"prev": x, "idx": 1, "script": b"", "seq": 0xFFFFFFFE, "witness": []}],
          "outs": [{"value": st["value"], "script": blob(25)}]}
     if what == "inputs":
-        n = min(n, 300)
+        n = max(1, min(n, 300))   # the statement speaks about transactions with at least one input
         m["ins"] = [{"prev": hashlib.sha256(x + struct.pack("<I", j)).digest(), "idx": j, "script": b"", "seq": j, "witness": []} for j in range(n)]
         if n >= 253:
             ctx.probe("inputs>=253")
